@@ -1009,6 +1009,9 @@ func (ex *Exec) convert(fr *frame, in ssa.Instruction, v Value, from, to types.T
 			return f
 		}
 		if bits, signed, ok := typeBits(to); ok {
+			if f.f != f.f {
+				ex.unsupported("conversion of an opaque (symbolic) float to an integer")
+			}
 			return mkWrap(mkInt(int64(f.f)), bits, signed)
 		}
 	}
